@@ -296,6 +296,27 @@ def run_encoder(prop, case, enc, emit, col, rk, rk_dv, rnd, cap):
                 emit('create_false_differs', {'x': x, 'create_true': [x1, a1], 'create_false': [x3, a3]})
         except Exception as e:  # noqa
             emit('create_false_differs', {'x': x, 'exc': D.exc_info(e)}, where={'exc': type(e).__name__})
+    # ---- C03, late pass: every corrected vector seen is still a fixed point, with the same architecture, after the
+    # processor has served the whole sweep (and in another order than it was first produced in)
+    if prop == 'C03' and corrected:
+        late = sorted(corrected)
+        gen.rng_for('c03late', S.digest(sp), enc).shuffle(late)
+        for xc in late[:120]:
+            a_c, key_c = corrected[xc]
+            col.count('monitor_late_fixed_point_evaluations')
+            try:
+                gL, xL, aL = gp.get_graph(list(xc))
+                xL, aL = D.to_list(xL), [bool(v) for v in aL]
+                okey = obs_key(O.instance(gL, b), model)
+                if xL != list(xc) or okey != key_c:
+                    emit('not_idempotent', {'x1': list(xc), 'x2': xL, 'same_arch': okey == key_c, 'pass': 'late'},
+                         where={'only_activeness_of': '', 'pass': 'late'})
+                    break
+            except Exception as e:  # noqa
+                info = D.exc_info(e)
+                emit('not_idempotent', {'x1': list(xc), 'exc': info, 'pass': 'late'},
+                     where={'exc': info['type'], 'site': info['site'], 'pass': 'late'})
+                break
     res = {'keys': {k for _, k in corrected.values()}, 'exhaustive': exhaustive and n_ok == len(vectors),
            'n_vec': len(vectors)}
     col.count('distinct_architectures_' + enc, len(res['keys']))
